@@ -9,25 +9,30 @@ LEVEL = "proof"
 READY = True
 MANIFEST = {
     "technique": "Coq proofs on Gallina models (heap-driven selection as a relation over pop traces; persisted generator info "
-                 "as a state machine over forge/tip-change/switch/restart/crash events) + differential correspondence evaluated "
-                 "in Coq (real selectTransactionsByFee and real forge() via hooks, generated block fed to the real Executer)",
-    "text": "Theorems: over ALL sequences of forge (incl. a crash before the persist and between persist and hand-off), tip change "
-            "by fork choice, chain switch with block deletes/applies, and restart, the headers one generator hands on are pairwise "
-            "non-contradicting (they form a LIP-0014 follower history; exactly C07's `follower` when no crash falls between persist "
-            "and hand-off), the largest handed-on height is covered by the persisted info at hand-off time and is what "
-            "maxHeightGenerated reports next; the original initBlockHeader (last height instead of largest) is refuted. "
-            "Selection: every possible pop trace of the heap loop yields an output that is the successful part of the trace, "
-            "takes each sender's transactions from its lowest nonce upwards without gaps, stays within the size limit, pops only "
-            "heads of maximal fee priority, and never returns to a sender after its first failure. "
-            "Tie: random pools x verify/execute outcome scripts x size limits run through the real selection (trace observed at "
-            "the ABI), event sequences run through the real forge() over a scripted tip with the generator DB read at hand-off "
-            "time, and blocks forged on a real in-process node are processed by the same node's Executer and must become the tip.",
-    "note": "One genuine defect repaired in /repo (maxHeightGenerated = last instead of largest generated height). Environment "
-            "assumptions of the no-self-contradiction theorem are explicit in the step relation: the tip moves only by fork choice, "
-            "no forging while syncing, a switch ends on a tip not worse than its start, the generated block is processed before "
-            "the next forge tick. Acceptance is established by running the real Executer (sampled), not proved in Coq; the "
-            "transaction pool is empty in those runs. Trusted: Coq kernel + vm_compute, fidelity of the hand models as sampled, "
-            "Go harness (incl. harness/internal/exh), Python glue.",
+                 "as a total state machine over forge/tip-change/sync/restart/crash events; composition with the block "
+                 "acceptance model of C03) + differential correspondence evaluated in Coq (real selectTransactionsByFee and "
+                 "real forge() via hooks, generated blocks fed to the real Executer, two-node sync run)",
+    "text": "Theorems: over ALL event sequences, every event enabled in every state - forge ticks (crash before the persist, "
+            "between persist and hand-off, or none), the tip becoming anything (own block processed, delayed or dropped; fork "
+            "choice; deletes; a failed sync leaving a lower tip), syncing on/off, restarts - the headers one generator hands on are "
+            "pairwise non-contradicting, with no hypothesis on the environment; without a crash between persist and hand-off they "
+            "are exactly C07's `follower` history and maxHeightGenerated is the largest height generated; the persisted info covers "
+            "what was handed on; the original code and the first repair alone are refuted. Selection: every possible pop trace yields "
+            "the successful part of the trace, a gap-free nonce-ordered prefix per sender, within the size limit, each pop of maximal "
+            "fee priority among the senders' next transactions, never returning to a sender after a failure. The generated block "
+            "passes every rule of Block.Validate / verifyBlock / block execution when generation and acceptance see the same "
+            "environment (partial). Tie: random pools x outcome scripts x limits through the real selection; event sequences "
+            "(incl. dropped hand-offs, lower tips, crashes) through the real forge() with the generator DB read at hand-off time; "
+            "blocks forged on a real in-process node with non-empty pools (failing transactions, size limit), events and pooled "
+            "aggregate commits must be accepted by the same node's Executer; the two misbehaving-environment scenarios on real "
+            "nodes; transaction execution through the in-process ABI handler.",
+    "note": "Three genuine defects repaired in /repo: maxHeightGenerated = last instead of largest height; no protection "
+            "against generating again on the same or a lower tip (double forging when the own block is not processed before the "
+            "next tick, contradiction after a failed block sync); ExecuteTransactionRequest.Consensus never set (nil dereference in "
+            "the in-process ABI handler). Acceptance is established by running the real Executer (sampled) and by the partial "
+            "composition theorem, whose hypotheses (same BFT/ABI answers at generation and acceptance, aggregate commit and "
+            "signature validity, contradiction verdict) are not discharged. Trusted: Coq kernel + vm_compute, fidelity of the hand "
+            "models as sampled, Go harness (incl. harness/internal/exh, gsx), Python glue.",
 }
 IMPORTS = "From LE Require Import BFT.Contradiction Forge.Select Forge.GenInfo Corr.C15."
 GEN = 7
@@ -195,7 +200,7 @@ def run(ck):
     for k in ("sel", "gen", "acc"):
         for r in [x for x in r1 if x["k"] == k][3:4]:
             ck.sample(r)
-    ck.cov["rule"] = ("selection: random pools of 1..4 senders x 0..4 transactions (distinct nonces with gaps, shuffled), fee "
+    ck.cov["rule"] = ("(see docs/C15.md for the second-round scenarios: dropped hand-off, lower tip, pools, aggregate commits, in-process ABI) selection: random pools of 1..4 senders x 0..4 transactions (distinct nonces with gaps, shuffled), fee "
                       "priorities from a small set so that ties are frequent, sizes 70..600 bytes, each transaction scripted to "
                       "succeed / fail verification (error, invalid, pending) / fail execution (error, invalid), size limit from 0 "
                       "to twice the pool size; generator info: the reproduced defect scenario + random event sequences (forge with "
@@ -208,12 +213,12 @@ def run(ck):
     ck.cov["exhaustive"] = False
     ck.extra["traces_validated_against_impl"] = len(recs)
     ck.assume += [
-        "environment of never_self_contradicting (explicit in Forge.GenInfo.step): the tip seen at forge time moves only by fork "
-        "choice (valid block, tie break, better chain), nothing is forged while syncing, a chain switch ends on a tip not worse "
-        "than where it started (blockSyncer does not restore blocks after a failed download: outside the theorem), the generated "
-        "block is processed by the own node before the next forge tick (AddInternal drops blocks when the queue is full)",
+        "never_self_contradicting has no environment hypothesis; it relies on the generator DB write being durable before "
+        "AddInternal (pebble synced batch) and on one forge at a time per generator (single check loop)",
         "selection: one sender's processable transactions have distinct nonces (Go's sort.Slice is not stable)",
-        "acceptance of generated blocks is sampled on the real Executer with an empty transaction pool and a scripted ABI",
+        "generated_block_accepted_partial: generation and acceptance see the same generator list, BFT heights, ABI answers; the "
+        "aggregate commit, the signature and the contradiction verdict are hypotheses; sampled on the real Executer",
+        "uint32 wrap of height+1 is modelled but not sampled (the real BFT parameter lookup fails at such heights)",
     ]
     if ck.tier == "thorough":
         ck.coqchk(["LE.Properties.C15"])
